@@ -994,3 +994,11 @@ Example run_complete_instances :
   select_result (NSuccessfulCommand 7 [ex_out; ex_mid]) 1 = Some (NSuccessfulCommand 7 [ex_mid], false) /\
   select_result NFailedCommand 1 = Some (NFailedCommand, true).
 Proof. vm_compute. repeat split; reflexivity. Qed.
+
+(* a phony statement with several outputs: any of its outputs among the inputs is left out in default mode, not only the first *)
+Example start_keys_multi_output_instance :
+  start_keys false true [[97]; [98]; [99]] [[105]; [97]] = [[105]] /\
+  start_keys false true [[97]; [98]; [99]] [[105]; [98]] = [[105]] /\
+  start_keys false true [[97]; [98]; [99]] [[105]; [99]] = [[105]] /\
+  start_keys true true [[97]; [98]; [99]] [[105]; [99]] = [[105]; [99]].
+Proof. vm_compute. repeat split; reflexivity. Qed.
